@@ -4,7 +4,7 @@
    (what Go and the naming strategy give; [wfb] decides it, see c10_harness_schemas_wf).
    [local table items]: "tbl.col" / "tbl.*" items use the statement's own table.
    sm = select_and_omit s table selects omits req_create req_update is Statement.SelectAndOmitColumns. *)
-From Verif Require Import Base C10_Model C10_Spec C10_Schemas C10_Proofs C10_Proofs2.
+From Verif Require Import Base C10_Model C10_Spec C10_Schemas C10_Proofs C10_Proofs2 C10_Proofs3.
 Open Scope Z_scope.
 
 (* the select map, read declaratively: denied permission wins, then Omit, then Select *)
@@ -177,6 +177,68 @@ Theorem c10_autoupdate_map_old_refuted : exists s table selects omits p f,
   /\ ~ exists k, In (f_db f, k) (assign_map_old s (select_and_omit s table selects omits false true) false p).
 Proof. exact autoupdate_map_old_refuted. Qed.
 Print Assumptions c10_autoupdate_map_old_refuted.
+
+(* ---- round 7 ---------------------------------------------------------------------------------------------------
+   [run_case] is what the checker evaluates: [run_op] plus the value's own struct type [vs] and the map updates made
+   EARLIER through the same handle.  Handle reuse: for every history of earlier updates (any length, any payloads)
+   the update runs as on a fresh handle, because the SET clause the Update callback derives never outlives the
+   callback ([update_callback], [handle_set]). *)
+Theorem c10_handle_reuse : forall s table o selects omits ps stored mk wh vs earlier,
+  run_case s table o selects omits ps stored mk wh vs earlier
+  = run_case s table o selects omits ps stored mk wh vs [].
+Proof. exact run_case_reuse. Qed.
+Print Assumptions c10_handle_reuse.
+
+(* ... and with a value of the model's own type that is [run_op], the subject of the theorems above *)
+Theorem c10_run_case_is_run_op : forall s table o selects omits ps stored mk wh earlier,
+  run_case s table o selects omits ps stored mk wh None earlier
+  = run_op s table o selects omits ps stored mk wh.
+Proof. exact run_case_plain. Qed.
+Print Assumptions c10_run_case_is_run_op.
+
+(* Updates / UpdateColumns with a struct of ANOTHER type [us] than the model [s] (ConvertToAssignments,
+   isDiffSchema): the general loop [assign_patch] is the same-type loop when the types coincide ... *)
+Theorem c10_patch_same_type : forall s, wf s -> forall sm skip p,
+  assign_patch s s sm skip p = assign_struct s sm skip false p.
+Proof. exact assign_patch_same. Qed.
+Print Assumptions c10_patch_same_type.
+
+(* ... no column is written whose tag denies update in the VALUE's type or in the MODEL's type ... *)
+Theorem c10_no_forbidden_update_patch : forall s table, wf s -> forall us selects omits skip p c k,
+  In (c, k) (assign_patch s us (select_and_omit s table selects omits false true) skip p) ->
+  exists f g, In f s /\ has_col f = true /\ lookup_field us (f_db f) = Some g /\ has_col g = true
+              /\ c = f_db g /\ updatable g = true
+              /\ (f_db g = f_db f -> updatable f = true)
+              /\ k = (if hooked skip g then KNow else KPay).
+Proof. exact assign_patch_in. Qed.
+Print Assumptions c10_no_forbidden_update_patch.
+
+(* ... and exactly: the model's column f (value field g) is in the SET list iff both types permit the update, no
+   Omit names it, and it is listed by Select / (without Select) non-zero in the value / a tracked update-time field
+   while hooks run.  The last hypothesis (a value field reached through a model column carries that column) is
+   decided per case by [patch_dom]. *)
+Theorem c10_patch_exact : forall s table, wf s -> forall us selects omits skip p f g,
+  In f s -> has_col f = true -> local table selects = true -> local table omits = true ->
+  lookup_field us (f_db f) = Some g -> has_col g = true -> f_db g = f_db f ->
+  (forall f' g', In f' s -> has_col f' = true -> lookup_field us (f_db f') = Some g' -> f_db g' = f_db f') ->
+  (exists k, In (f_db f, k) (assign_patch s us (select_and_omit s table selects omits false true) skip p))
+  <-> updatable f && updatable g && negb (listed table omits f)
+      && (match selects with [] => negb (p_zero p g) | _ => listed table selects f end
+          || (negb skip && tracked_update g)) = true.
+Proof. exact assign_patch_exact. Qed.
+Print Assumptions c10_patch_exact.
+
+(* whole cases as the checker runs them, after any history of earlier updates through the handle *)
+Theorem c10_patch_cells : forall s table, wf s -> forall us o skip selects omits ps stored mk wh earlier x,
+  is_struct_update o = Some skip ->
+  In x (out_cells (run_case s table o selects omits ps stored mk wh (Some us) earlier)) ->
+  (exists ks, In (c_row x, ks) stored /\ key_match mk ks = true
+              /\ match wh with None => True | Some l => In (c_row x) l end)
+  /\ exists f g, In f s /\ has_col f = true /\ lookup_field us (f_db f) = Some g /\ has_col g = true
+                 /\ c_col x = f_db g /\ updatable g = true /\ (f_db g = f_db f -> updatable f = true)
+                 /\ c_src x = (if hooked skip g then KNow else KPay).
+Proof. exact patch_cells. Qed.
+Print Assumptions c10_patch_cells.
 
 (* the hypotheses are met by the six model types of the harness *)
 Theorem c10_harness_schemas_wf : Forall wf harness_schemas.
